@@ -176,6 +176,48 @@ def gen_namesake_graph(r):
     return names, defs
 
 
+def gen_nested_name_graph(r):
+    """directed family: a type whose full name is also the namespace of other stored types (shop.Item and shop.Item.Detail,
+    lib.Book and lib.Book.Page.Line): file names that share a prefix up to a dot"""
+    top_ns = r.choice(["", "app"])
+    outer = r.choice(["shop.Item", "lib.Book", "Item"])
+    inner1 = outer + "." + r.choice(["Detail", "Page"])
+    inner2 = inner1 + ".Line" if r.random() < 0.5 else outer + ".Extra"
+    names, defs = [], []
+
+    def add(full, d):
+        d = dict(d)
+        tns, _, base = full.rpartition(".")
+        if tns and r.random() < 0.5:
+            d["name"], d["namespace"] = base, tns
+        else:
+            d["name"] = full
+        names.append(full)
+        defs.append(d)
+
+    def small(kind, tag):
+        if kind == "enum":
+            return {"type": "enum", "symbols": [tag + "A", tag + "B"]}
+        if kind == "fixed":
+            return {"type": "fixed", "size": 3}
+        return {"type": "record", "fields": [{"name": tag.lower(), "type": "int"}]}
+    tf = [{"name": "first", "type": outer}]
+    if r.random() < 0.6:
+        tf.append({"name": "second", "type": r.choice([inner1, {"type": "array", "items": inner1}, ["null", inner2]])})
+    if r.random() < 0.4:
+        r.shuffle(tf)
+    add((top_ns + "." if top_ns else "") + "Top", {"type": "record", "fields": tf})
+    of = [{"name": "d", "type": r.choice([inner1, ["null", inner1], {"type": "map", "values": inner1}])}, {"name": "n", "type": "long"}]
+    add(outer, {"type": "record", "fields": of})
+    k1 = r.choice(["record", "enum", "fixed"])
+    d1 = small(k1, "I")
+    if k1 == "record" and r.random() < 0.6:
+        d1["fields"].append({"name": "deeper", "type": inner2})
+    add(inner1, d1)
+    add(inner2, small(r.choice(["record", "enum", "fixed"]), "J"))
+    return names, defs
+
+
 def reachable(names, defs):
     """the types actually used from the root, with (enclosing namespace)-resolved references"""
     idx = {n: i for i, n in enumerate(names)}
@@ -300,7 +342,9 @@ def run(tier, seed):
     try:
         for i in range(scale(tier, 350)):
             r = random.Random(seed * 19000013 + i)
-            if i % 6 == 5:
+            if i % 6 == 4:
+                names, defs = gen_nested_name_graph(r)
+            elif i % 6 == 5:
                 names, defs = gen_namesake_graph(r)
             else:
                 names, defs = gen_graph(r)
@@ -312,6 +356,8 @@ def run(tier, seed):
             case = {"files": {n: df for n, df in zip(names, defs)}, "root": names[0], "tags": ["types:%d" % len(used)]}
             if i % 6 == 5:
                 run.tag("namesake-null-first")
+            if i % 6 == 4:
+                run.tag("name-is-a-namespace-too")
             run.count(case, len(used) >= 3, ["types:%d" % len(used), "namespaces:%d" % len({n.rpartition('.')[0] for n in used})])
             run.cov["traces_validated_against_impl"] += 1
             try:
